@@ -278,6 +278,11 @@ class SchemaValidator:
                     path, field.arguments, resolver,
                 )
 
+            if field.subscription_resolver and self.enable_resolver_validation:
+                self._validate_resolver_arguments(
+                    path, field.arguments, field.subscription_resolver,
+                )
+
             fieldnames.add(field.name)
 
     def _validate_resolver_arguments(
